@@ -172,8 +172,13 @@ Fixpoint buckets_increasing (b : list F64) : bool :=
   | _ => true
   end.
 Definition quantile_ok (q : F64) : bool := f_leb f_zero q && f_leb q f_one.
+(* the client library divides max_age into age_buckets streams (5 when unset); a stream duration that
+   rounds down to zero makes it spin forever at the first observation or scrape *)
+Definition stream_ok (s : summ_opts) : bool :=
+  let b := if (so_age_buckets s =? 0)%N then 5%Z else Z.of_N (so_age_buckets s) in
+  (so_max_age s <=? 0)%Z || (0 <? so_max_age s / b)%Z.
 Definition summary_ok (s : summ_opts) : bool :=
-  forallb (fun qe => quantile_ok (fst qe)) (so_quantiles s) && (0 <=? so_max_age s)%Z.
+  forallb (fun qe => quantile_ok (fst qe)) (so_quantiles s) && ((0 <=? so_max_age s)%Z && stream_ok s).
 
 (* MapperConfigDefaults.UnmarshalYAML + the defaulting at the top of InitFromYAMLString *)
 Definition load_defaults (d : option defaults_ast) : lres (defaults * option bool) :=
